@@ -393,8 +393,11 @@ Fixpoint wf_ops (stk : list call) (ops : list op) : bool :=
 Record tl := { t_pid : Z; t_tid : Z; t_exited : bool }.
 Inductive tmsg :=
 | TaskStart (pid tid : Z) | TaskEnd (tid : Z) | ForkStart (pid : Z) | ForkEnd (ppid tid : Z)
-| Finish | Other.
-Record rs := { tids : list tl; rchan : list tmsg; finish_received : bool; child_exited : bool;
+| Finish | Other
+| RecStart (sid tid idx : Z) | RecEnd (sid tid idx : Z).   (* "/uftrace-<sid>-<tid>-<idx>" *)
+Record rs := { tids : list tl; rchan : list tmsg;
+               shm : list (Z * Z * Z);     (* shmem_list_head: announced buffers (sid, tid, idx), oldest first *)
+               finish_received : bool; child_exited : bool;
                failed : bool (* pr_err: "cannot find fork pid" *) }.
 
 Local Open Scope Z_scope.
@@ -410,38 +413,54 @@ Fixpoint set_fork_tid (pred : tl -> bool) (tid : Z) (l : list tl) : option (list
   | t :: r => if pred t then Some ({| t_pid := t_pid t; t_tid := tid; t_exited := t_exited t |} :: r)
               else match set_fork_tid pred tid r with Some r' => Some (t :: r') | None => None end
   end.
+Definition id_eqb (a b : Z * Z * Z) : bool :=
+  let '(a1, a2, a3) := a in let '(b1, b2, b3) := b in (a1 =? b1) && (a2 =? b2) && (a3 =? b3).
+Fixpoint remove_first_id (x : Z * Z * Z) (l : list (Z * Z * Z)) : list (Z * Z * Z) :=
+  match l with [] => [] | y :: r => if id_eqb y x then r else y :: remove_first_id x r end.
+(* flush_old_shmem(tid): the first entry whose name carries that tid - the buffer of the image that
+   exec() wiped, announced before the new image's first buffer *)
+Fixpoint remove_first_tid (tid : Z) (l : list (Z * Z * Z)) : list (Z * Z * Z) :=
+  match l with [] => [] | (a, t, i) :: r => if t =? tid then r else (a, t, i) :: remove_first_tid tid r end.
 Definition handle (m : tmsg) (s : rs) : rs :=
   match m with
   | TaskStart pid tid =>
       (* existing tid (exec): flush_old_shmem, no new entry; else add_tid_list (list_add: at the head) *)
-      if existsb (fun t => t_tid t =? tid) (tids s) then s
-      else {| tids := {| t_pid := pid; t_tid := tid; t_exited := false |} :: tids s; rchan := rchan s;
+      if existsb (fun t => t_tid t =? tid) (tids s)
+      then {| tids := tids s; rchan := rchan s; shm := remove_first_tid tid (shm s);
+              finish_received := finish_received s; child_exited := child_exited s; failed := failed s |}
+      else {| tids := {| t_pid := pid; t_tid := tid; t_exited := false |} :: tids s; rchan := rchan s; shm := shm s;
               finish_received := finish_received s; child_exited := child_exited s; failed := failed s |}
   | TaskEnd tid =>
-      {| tids := mark_first tid (tids s); rchan := rchan s; finish_received := finish_received s;
+      {| tids := mark_first tid (tids s); rchan := rchan s; shm := shm s; finish_received := finish_received s;
          child_exited := child_exited s; failed := failed s |}
   | ForkStart pid =>
-      {| tids := {| t_pid := pid; t_tid := -1; t_exited := false |} :: tids s; rchan := rchan s;
+      {| tids := {| t_pid := pid; t_tid := -1; t_exited := false |} :: tids s; rchan := rchan s; shm := shm s;
          finish_received := finish_received s; child_exited := child_exited s; failed := failed s |}
   | ForkEnd ppid tid =>
       match set_fork_tid (fun t => (t_pid t =? ppid) && (t_tid t =? -1)) tid (tids s) with
-      | Some l => {| tids := l; rchan := rchan s; finish_received := finish_received s;
+      | Some l => {| tids := l; rchan := rchan s; shm := shm s; finish_received := finish_received s;
                      child_exited := child_exited s; failed := failed s |}
       | None =>
           match set_fork_tid (fun t => t_tid t =? -1) tid (tids s) with
-          | Some l => {| tids := l; rchan := rchan s; finish_received := finish_received s;
+          | Some l => {| tids := l; rchan := rchan s; shm := shm s; finish_received := finish_received s;
                          child_exited := child_exited s; failed := failed s |}
-          | None => {| tids := tids s; rchan := rchan s; finish_received := finish_received s;
+          | None => {| tids := tids s; rchan := rchan s; shm := shm s; finish_received := finish_received s;
                        child_exited := child_exited s; failed := true |}
           end
       end
-  | Finish => {| tids := tids s; rchan := rchan s; finish_received := true;
+  | Finish => {| tids := tids s; rchan := rchan s; shm := shm s; finish_received := true;
                  child_exited := child_exited s; failed := failed s |}
   | Other => s
+  | RecStart sid tid idx =>        (* list_add_tail *)
+      {| tids := tids s; rchan := rchan s; shm := shm s ++ [(sid, tid, idx)];
+         finish_received := finish_received s; child_exited := child_exited s; failed := failed s |}
+  | RecEnd sid tid idx =>          (* the first entry with that name is unlinked (then record_mmap_file) *)
+      {| tids := tids s; rchan := rchan s; shm := remove_first_id (sid, tid, idx) (shm s);
+         finish_received := finish_received s; child_exited := child_exited s; failed := failed s |}
   end.
 (* sigchld_handler *)
 Definition sigchld (pid : Z) (s : rs) : rs :=
-  {| tids := mark_first pid (tids s); rchan := rchan s; finish_received := finish_received s;
+  {| tids := mark_first pid (tids s); rchan := rchan s; shm := shm s; finish_received := finish_received s;
      child_exited := true; failed := failed s |}.
 (* check_tid_list; dead tid = /proc/<tid>/stat cannot be opened or shows state Z *)
 Definition check_mark (dead : Z -> bool) (t : tl) : tl :=
@@ -449,7 +468,7 @@ Definition check_mark (dead : Z -> bool) (t : tl) : tl :=
 Definition check_tid_list (dead : Z -> bool) (s : rs) : rs * bool :=
   let l := map (check_mark dead) (tids s) in
   let all := forallb t_exited l in
-  ({| tids := l; rchan := rchan s; finish_received := finish_received s;
+  ({| tids := l; rchan := rchan s; shm := shm s; finish_received := finish_received s;
       child_exited := child_exited s || all; failed := failed s |}, all).
 
 (* drop_pending_forks (fix df8806b): FORK_END can only arrive through the pipe; once the pipe is empty
@@ -460,7 +479,7 @@ Definition drop_pending_forks (nowriter : bool) (s : rs) : rs * bool :=
   match rchan s with
   | [] =>
       if nowriter then
-        ({| tids := map drop_mark (tids s); rchan := rchan s; finish_received := finish_received s;
+        ({| tids := map drop_mark (tids s); rchan := rchan s; shm := shm s; finish_received := finish_received s;
             child_exited := child_exited s; failed := failed s |}, existsb pending_fork (tids s))
       else (s, false)
   | _ :: _ => (s, false)
@@ -477,7 +496,7 @@ Fixpoint stop_loop (dropf : bool) (fuel : nat) (dead : Z -> bool) (nowriter : bo
       match rchan s with
       | m :: ch =>
           stop_loop dropf k dead nowriter
-                    (handle m {| tids := tids s; rchan := ch; finish_received := finish_received s;
+                    (handle m {| tids := tids s; rchan := ch; shm := shm s; finish_received := finish_received s;
                                  child_exited := child_exited s; failed := failed s |})
       | [] =>
           let '(s1, all) := check_tid_list dead s in
@@ -489,7 +508,7 @@ Fixpoint stop_loop (dropf : bool) (fuel : nat) (dead : Z -> bool) (nowriter : bo
       end
   end.
 Definition rs0 (ch : list tmsg) : rs :=
-  {| tids := []; rchan := ch; finish_received := false; child_exited := false; failed := false |}.
+  {| tids := []; rchan := ch; shm := []; finish_received := false; child_exited := false; failed := false |}.
 Definition is_stopped (o : outcome) : bool := match o with Stopped _ => true | Spinning _ => false end.
 Definition out_state (o : outcome) : rs := match o with Stopped s => s | Spinning s => s end.
 Local Close Scope Z_scope.
@@ -594,7 +613,8 @@ Inductive lev :=
 | LCheck (dead : list Z)                          (* tids whose /proc/<tid>/stat is gone or shows Z *)
          (ret cex fin : bool) (l : list (Z * Z * bool))    (* what the implementation reported *)
 | LDrop (nowriter : bool)                         (* drop_pending_forks on an empty pipe with / without a writer *)
-        (ret : bool) (l : list (Z * Z * bool)).
+        (ret : bool) (l : list (Z * Z * bool))
+| LShm (l : list (Z * Z * Z)).                    (* shmem_list_head as the implementation shows it *)
 Definition tl_eqb (t : tl) (e : Z * Z * bool) : bool :=
   let '(p, i, x) := e in (t_pid t =? p)%Z && (t_tid t =? i)%Z && Bool.eqb (t_exited t) x.
 Fixpoint tls_eqb (a : list tl) (b : list (Z * Z * bool)) : bool :=
@@ -604,6 +624,12 @@ Fixpoint tls_eqb (a : list tl) (b : list (Z * Z * bool)) : bool :=
   | _, _ => false
   end.
 Definition in_list (l : list Z) (z : Z) : bool := existsb (Z.eqb z) l.
+Fixpoint ids_eqb (a b : list (Z * Z * Z)) : bool :=
+  match a, b with
+  | [], [] => true
+  | x :: a', y :: b' => id_eqb x y && ids_eqb a' b'
+  | _, _ => false
+  end.
 Fixpoint live_agrees (evs : list lev) (s : rs) : bool :=
   match evs with
   | [] => true
@@ -616,6 +642,7 @@ Fixpoint live_agrees (evs : list lev) (s : rs) : bool :=
   | LDrop nw ret l :: r =>
       let '(s1, d) := drop_pending_forks nw s in
       Bool.eqb d ret && tls_eqb (tids s1) l && live_agrees r s1
+  | LShm l :: r => ids_eqb (shm s) l && live_agrees r s
   end.
 (* the property on what the implementation reported: a dead task with a real tid is marked, when every
    entry is marked the answer is "all exited", and once the pipe is empty without a writer no
